@@ -16,7 +16,21 @@ import (
 func refDir(v ref.V) ref.V { return gen.V(s2.Ortho(gen.P(v))) }
 
 // antipodal: exactly opposite directions (not merely negated coordinates): such a pair is not an edge.
-func antipodal(a, b s2.Point) bool { return ref.Antipodal(gen.V(a), gen.V(b)) }
+// antipodal: the pair is not an edge. Exactly antipodal directions, and also pairs whose exact cross product
+// is smaller than the smallest positive float64 (about 5e-324): their plane cannot be represented by any
+// float computation, the library (like its original) then takes an arbitrary perpendicular as the normal,
+// i.e. treats the pair as antipodal. (One such pair, differing from antipodal by 1e-340, came out of the
+// denormal pool in a thorough run.)
+func antipodal(a, b s2.Point) bool {
+	if ref.Antipodal(gen.V(a), gen.V(b)) {
+		return true
+	}
+	if a.Dot(b.Vector) > -0.5 {
+		return false
+	}
+	n2 := ref.HV(gen.V(a)).Cross(ref.HV(gen.V(b))).Norm2()
+	return n2.Sign() == 0 || n2.MantExp(nil) < -2*1074
+}
 
 func Run(m *mon.M) {
 	m.Rule = "quadruples from degenerate pools (one exact plane, duplicates, antipodes, ulp neighbours), shared-endpoint and collinear-beyond-the-endpoint constructions, and random operation words on one EdgeCrosser; a case is non-trivial and distinct when its bit pattern is new AND (the edges share a vertex, or some orientation of the four triangles is exactly degenerate, or the reference says Cross, or it is a crosser history with a restart/mixed call)"
